@@ -985,57 +985,50 @@ func zeroValueSingleStep(p *Prog) string {
 	if fi == nil {
 		return "xtype.ZeroValue not found"
 	}
-	info := fi.Pkg.TypesInfo
+	sf := p.SSAFunc(fi)
+	if sf == nil {
+		return "no SSA for xtype.ZeroValue"
+	}
+	// every recursive call receives (*types.Named).Underlying() of the named type at hand — one unfolding step
+	// whose result is never a *types.Named again — whatever the surrounding if/switch looks like
 	bad := ""
-	walkStack(fi.Decl, func(n ast.Node, stack []ast.Node) bool {
-		call, ok := n.(*ast.CallExpr)
-		if !ok {
-			return true
+	allInstrs(sf, false, func(in ssa.Instruction) {
+		c, ok := in.(*ssa.Call)
+		if !ok || c.Call.StaticCallee() != sf || len(c.Call.Args) != 1 {
+			return
 		}
-		if f, ok := calleeObj(info, call).(*types.Func); !ok || f != fi.Obj {
-			return true
-		}
-		inNamed := false
-		for _, s := range stack {
-			if cc, ok := s.(*ast.CaseClause); ok {
-				for _, e := range cc.List {
-					if isNamed(info.TypeOf(e), "go/types", "Named") {
-						inNamed = true
-					}
+		v := c.Call.Args[0]
+		okArg := false
+		for i := 0; i < 6 && v != nil; i++ {
+			switch x := v.(type) {
+			case *ssa.MakeInterface:
+				v = x.X
+				continue
+			case *ssa.ChangeInterface:
+				v = x.X
+				continue
+			case *ssa.TypeAssert:
+				v = x.X
+				continue
+			case *ssa.Extract:
+				v = x.Tuple
+				continue
+			case *ssa.Phi:
+				// all edges must qualify: take the first and let the others be checked by the same walk
+				if len(x.Edges) > 0 {
+					v = x.Edges[0]
+					continue
+				}
+			case *ssa.Call:
+				if o := ssaCalleeObj(x); o != nil && o.Name() == "Underlying" && !x.Call.IsInvoke() && recvTypeName(o) == "Named" && objPkgPath(o) == "go/types" {
+					okArg = true
 				}
 			}
+			break
 		}
-		argOK := false
-		if id, ok := ast.Unparen(call.Args[0]).(*ast.Ident); ok {
-			// bound by `switch under := cast.Underlying().(type)`
-			ast.Inspect(fi.Decl, func(m ast.Node) bool {
-				ts, ok := m.(*ast.TypeSwitchStmt)
-				if !ok {
-					return true
-				}
-				if as, ok := ts.Assign.(*ast.AssignStmt); ok {
-					if l, ok := as.Lhs[0].(*ast.Ident); ok && l.Name == id.Name {
-						if ta, ok := as.Rhs[0].(*ast.TypeAssertExpr); ok {
-							if c2, ok := ast.Unparen(ta.X).(*ast.CallExpr); ok {
-								if f2, ok := calleeObj(info, c2).(*types.Func); ok && f2.Name() == "Underlying" {
-									argOK = true
-								}
-							}
-						}
-					}
-				}
-				return true
-			})
+		if !okArg {
+			bad = "ZeroValue recurses with an argument that is not (*types.Named).Underlying(): recursion on a recursive type is unbounded (" + p.PosStr(c.Pos()) + ")"
 		}
-		if c2, ok := ast.Unparen(call.Args[0]).(*ast.CallExpr); ok {
-			if f2, ok := calleeObj(info, c2).(*types.Func); ok && f2.Name() == "Underlying" {
-				argOK = true
-			}
-		}
-		if !inNamed || !argOK {
-			bad = "ZeroValue recurses outside the *types.Named arm or with an argument that is not Underlying(): recursion on a recursive type is unbounded (" + p.PosStr(call.Pos()) + ")"
-		}
-		return true
 	})
 	return bad
 }
@@ -1575,52 +1568,76 @@ func mapFieldSkipFact(p *Prog) string {
 		return "builder.mapField not found"
 	}
 	sf := p.SSAFunc(fi)
-	isIgnoreMissing := func(c ssa.Value) bool {
-		u, ok := c.(*ssa.UnOp)
-		if !ok || u.Op != token.MUL {
-			return false
-		}
-		fa, ok := u.X.(*ssa.FieldAddr)
-		return ok && fieldName(fa) == "IgnoreMissing"
+	if sf == nil {
+		return "no SSA for builder.mapField"
 	}
-	var okVal func(v ssa.Value, from *ssa.BasicBlock, depth int) string
-	okVal = func(v ssa.Value, from *ssa.BasicBlock, depth int) string {
-		if depth > 4 {
-			return "too deep"
-		}
-		switch x := v.(type) {
-		case *ssa.Const:
-			if x.Value != nil && x.Value.Kind() == constant.Bool && !constant.BoolVal(x.Value) {
-				return ""
-			}
-			return "skip is the constant true"
-		case *ssa.Extract:
-			ta, ok := x.Tuple.(*ssa.TypeAssert)
-			if ok && ta.CommaOk && x.Index == 1 && isNamed(ta.AssertedType, modPath+"/xtype", "NoMatchError") {
-				if dominatedByEdge(ta.Block(), true, isIgnoreMissing) {
-					return ""
+	// skip (5th result) may be true only if ctx.Conf.IgnoreMissing was read true AND the lookup error is a
+	// *xtype.NoMatchError — decided by evaluating mapField (and the private helpers it delegates to) with one of
+	// the two fixed to false: no return may then carry skip = true.
+	type tri struct{ set, val bool }
+	explicitPath := false // when set: the field has a configured source path (fieldMapping.Source != "")
+	nSrc := 0
+	run := func(im, nm tri) (*ssa.Return, int, int) {
+		nIM, nNM := 0, 0
+		sc := &absScenario{assume: func(v ssa.Value, _ func(ssa.Value) absVal) (absVal, bool) {
+			if bo, ok := v.(*ssa.BinOp); ok && (bo.Op == token.EQL || bo.Op == token.NEQ) {
+				x, y := bo.X, bo.Y
+				if _, isK := x.(*ssa.Const); isK {
+					x, y = y, x
 				}
-				return "the NoMatchError test is not under ctx.Conf.IgnoreMissing"
-			}
-			return "skip does not come from a *xtype.NoMatchError test"
-		case *ssa.Phi:
-			for i, e := range x.Edges {
-				if m := okVal(e, x.Block().Preds[i], depth+1); m != "" {
-					return m
+				if k, isK := y.(*ssa.Const); isK && loadsFieldNamed(x, "Source") {
+					if a := constVal(k); a.k == absStr && a.s == "" {
+						nSrc++
+						if explicitPath {
+							return aBool(bo.Op == token.NEQ), true
+						}
+					}
 				}
 			}
-			return ""
-		}
-		return "skip is computed from " + v.String() + ": a target field could be silently skipped for other errors than a missing source (e.g. an ambiguous match)"
+			if loadsFieldNamed(v, "IgnoreMissing") {
+				nIM++
+				if im.set {
+					return aBool(im.val), true
+				}
+				return aUnknown, true
+			}
+			if ex, ok := v.(*ssa.Extract); ok && ex.Index == 1 {
+				if ta, ok := ex.Tuple.(*ssa.TypeAssert); ok && ta.CommaOk && isNamed(derefType(ta.AssertedType), modPath+"/xtype", "NoMatchError") {
+					nNM++
+					if nm.set {
+						return aBool(nm.val), true
+					}
+					return aUnknown, true
+				}
+			}
+			return aUnknown, false
+		}}
+		got := absReach(sf, sc, func(ret *ssa.Return, eval func(ssa.Value) absVal) bool {
+			if len(ret.Results) != 6 {
+				return false
+			}
+			a := eval(ret.Results[4])
+			return !(a.k == absBool && !a.b)
+		})
+		return got, nIM, nNM
 	}
-	for _, b := range sf.Blocks {
-		for _, in := range b.Instrs {
-			if ret, ok := in.(*ssa.Return); ok && len(ret.Results) == 6 {
-				if m := okVal(ret.Results[4], b, 0); m != "" {
-					return p.PosStr(ret.Pos()) + ": " + m
-				}
-			}
-		}
+	if got, _, _ := run(tri{true, false}, tri{}); got != nil {
+		return p.PosStr(got.Pos()) + ": skip can be true although ctx.Conf.IgnoreMissing is false: a target field could be silently skipped without the setting"
+	}
+	if got, _, _ := run(tri{}, tri{true, false}); got != nil {
+		return p.PosStr(got.Pos()) + ": skip can be true for an error that is not a *xtype.NoMatchError (e.g. an ambiguous match): the field would be silently skipped instead of reported"
+	}
+	explicitPath = true
+	if got, _, _ := run(tri{}, tri{}); got != nil {
+		return p.PosStr(got.Pos()) + ": skip can be true for a field with a configured source path (goverter:map PATH FIELD): a path that cannot be resolved must fail generation, ignoreMissing only covers fields without a matching source"
+	}
+	explicitPath = false
+	if nSrc == 0 {
+		return "the test `fieldMapping.Source == \"\"` (no configured path) is no longer recognisable in mapField"
+	}
+	got, nIM, nNM := run(tri{true, true}, tri{true, true})
+	if got == nil || nIM == 0 || nNM == 0 {
+		return "the ignoreMissing continuation is no longer recognisable in mapField (IgnoreMissing read / *xtype.NoMatchError test not found on a path that sets skip)"
 	}
 	return ""
 }
